@@ -693,8 +693,8 @@ func TestVerifC35(t *testing.T) {
 
 		return out
 	}
-	sizesQ := []int{3, 4, 100, 2000}
-	sizesT := []int{3, 4, 5, 100, 101, 1201, 2000}
+	sizesQ := []int{3, 4, 100, 300, 2000} // 300: below the larger MTU and beyond one byte of length (aggregation packets carry 16-bit sizes)
+	sizesT := []int{3, 4, 5, 100, 101, 300, 1201, 2000}
 	var plans []plan
 	if quick {
 		plans = []plan{
